@@ -1,4 +1,4 @@
-// hook for train/braking_point.rs (child module: `use super::*;` reaches the file's private items)
+// hook for train/braking_point.rs (BrakingPoints fields are private)
 #[cfg(nrel_altrios_verif)]
 mod native {
     #[allow(unused_imports)]
@@ -6,9 +6,22 @@ mod native {
     use crate::verif_hook::runner::*;
     use serde_json::{json, Value};
 
+    fn call(o: &mut BrakingPoints, fname: &str, a: &[Value]) -> CallRes {
+        match fname {
+            "BrakingPoints::calc_speeds" => {
+                let (lim, tgt) = o.calc_speeds(f(&a[0]) * uc::M, f(&a[1]) * uc::MPS, f(&a[2]) * uc::S);
+                Ok(Ok(json!([lim.value, tgt.value])))
+            }
+            _ => Err(Unsup(format!("no runner entry for {fname}"))),
+        }
+    }
+
     impl FileEntry for BrakingPointTag {
-        fn call(_req: &Value) -> Value {
-            json!({"kind": "unsupported", "msg": "no entries yet"})
+        fn call(req: &Value) -> Value {
+            match req["recv_ty"].as_str().unwrap_or("") {
+                "BrakingPoints" => run::<BrakingPoints>(req, call),
+                t => json!({"kind": "unsupported", "msg": format!("no runner for {t}")}),
+            }
         }
     }
 }
